@@ -105,12 +105,15 @@ static void op_decode(pv_rng* r, bool explicit_, bool armed) {
     if (s && st == POLYSEED_OK) pv_api_free(s);
     if (g.s) pv_gstr_free(&g); else free(in);
 }
+static bool g_arm_next;     /* the next library call finds the allocator refusing one request, whatever the call is */
+static void arm(void) { if (g_arm_next) { pv_w->fail_countdown = 1; PV_COUNT("ops.non_constructor_with_failing_allocator", 1); } }
+static void disarm(void) { pv_w->fail_countdown = 0; g_arm_next = false; }
 static void op_crypt(pv_rng* r) {
     int i = live_slot(r); if (i < 0) return;
     const char* cls; char* pw = pv_gen_password(r, &cls);
     char* nf = pv_nfkd_alloc(pw);
     if (strlen(nf) >= POLYSEED_STR_SIZE) { free(nf); free(pw); return; }
-    pv_api_crypt(S[i].s, pw);
+    arm(); pv_api_crypt(S[i].s, pw); disarm();
     check_tags("crypt"); seq(0x40); PV_COUNT("ops.crypt", 1);
     uint8_t mask[32]; pv_kdf_mix((const uint8_t*)nf, strlen(nf), CSALT, 16, 10000, mask, 32);     /* what a conforming call makes the KDF stand-in return */
     pv_m_crypt(&S[i].m, mask);
@@ -122,7 +125,7 @@ static void op_encode(pv_rng* r) {
     int i = live_slot(r); if (i < 0) return;
     pv_mlang* L; do { L = &pv_langs[pv_randn(r, (uint32_t)pv_nlangs)]; } while (!L->lib);
     unsigned coin = pv_gen_coin(r);
-    size_t n = pv_api_encode(S[i].s, L->lib, coin, g_out);
+    arm(); size_t n = pv_api_encode(S[i].s, L->lib, coin, g_out); disarm();
     check_tags("encode"); seq(0x50); PV_COUNT("ops.encode", 1);
     char want[2048]; size_t wn = pv_m_encode(&S[i].m, L, coin, want, sizeof want);
     if (strcmp(want, g_out) || n != wn) vio("encode", "phrase", "slot %d %s coin %u: '%s' vs model '%s'", i, L->name_en, coin, pv_esc(g_out), pv_esc(want));
@@ -131,7 +134,7 @@ static void op_keygen(pv_rng* r) {
     int i = live_slot(r); if (i < 0) return;
     unsigned coin = pv_gen_coin(r); size_t ks = 1 + pv_randn(r, 64);
     memset(g_key, 0xEE, 64);
-    pv_api_keygen(S[i].s, coin, ks, g_key);
+    arm(); pv_api_keygen(S[i].s, coin, ks, g_key); disarm();
     check_tags("keygen"); seq(0x60); PV_COUNT("ops.keygen", 1);
     uint8_t pw[32], salt[32], exp[64]; pv_m_password(&S[i].m, pw); pv_m_salt(&S[i].m, coin, salt); pv_kdf_mix(pw, 32, salt, 32, 10000, exp, ks);
     if (memcmp(exp, g_key, ks)) vio("keygen", "key", "slot %d coin %u size %zu: key differs from what the model inputs produce", i, coin, ks);
@@ -190,12 +193,15 @@ static void init(void) {
 static uint64_t n_walks(void) { return pv_scaled(4000, 150000); }
 static void run_walks(uint64_t idx, pv_rng* rng) {
     reset_all();
+    pv_w->reuse_mode = (int)(idx & 1);         /* every other walk: the allocator hands the most recently freed block out again */
+    if (pv_w->reuse_mode) PV_COUNT("walks.with_address_reusing_allocator", 1);
     int steps = 50 + (int)pv_randn(rng, 151);
     bool after_ctor_change = false;
     for (int k = 0; k < steps && !g_bad; ++k) {
         uint32_t op = pv_randn(rng, 100); bool armed = pv_randn(rng, 25) == 0;
         bool had = g_had_ctor; g_state_changed = false;
         int target = -2;
+        g_arm_next = armed && op >= 42 && op < 70;
         guard_begin();
         if (op < 10) op_create(rng, pv_randn(rng, 3) ? pv_randn(rng, 8) : (unsigned)pv_rand64(rng), armed);
         else if (op < 22) op_load(rng, armed);
@@ -214,6 +220,7 @@ static void run_walks(uint64_t idx, pv_rng* rng) {
         if (had && g_state_changed) after_ctor_change = true;
         observe_others(target, "step", rng);
     }
+    pv_w->reuse_mode = 0; if (pv_w->cache_ptr) { free(pv_w->cache_ptr); pv_w->cache_ptr = NULL; }
     if (!g_bad && after_ctor_change) { PV_DISTINCT("nontrivial", g_seqhash); PV_COUNT("walks.matched_model", 1); }
     if (idx < 3) pv_sample("walk", "%d operations, %d seeds live at the end, enabled mask %u, table %c", steps, nlive(), M_mask, 'A' + M_tag);
 }
